@@ -57,6 +57,7 @@ inductive Act
 inductive Ret
   | none                          -- no return values: the return handler is not called
   | writes (code len : Nat)       -- e.g. `(int, string)`: WriteHeader(code), then Write if len > 0
+  | body (len : Nat)              -- e.g. a `string`: Write only (implicit 200); nothing if len = 0
   | nothing                       -- return values that render to nothing (e.g. `""`)
   deriving DecidableEq, Repr
 
@@ -81,7 +82,8 @@ inductive Ev
   | escaped (v : PVal) (j : Nat)  -- the panic left ServeHTTP
   deriving DecidableEq, Repr
 
-/-- body tokens the client receives, one per forwarded Write -/
+/-- body tokens the client receives, one per forwarded Write (none at all for HEAD: the writer
+    forwards no body then, `w.method != http.MethodHead`) -/
 inductive Tok
   | xs (n : Nat)     -- n bytes written by a handler
   | plain            -- "Internal Server Error"
@@ -93,6 +95,7 @@ structure Cfg where
   grp     : List Kind := []       -- handlers of the enclosing groups, outermost first
   rt      : List Kind := []       -- the route's own handlers
   action  : Option Kind := none   -- f.Action(...)
+  head    : Bool := false         -- the request method is HEAD (`NewResponseWriter(r.Method, w)`)
   dev     : Bool := false
   onceBug : Bool := false         -- see the header: true = response_writer.go as it is (F15)
   detailLen : Nat := 1000         -- length of the development page (irrelevant to control flow)
@@ -139,7 +142,7 @@ def doHeader (c : Cfg) (i code : Nat) (st : St) : Res :=
 /-- `Write(n bytes)` called by position `i` (triggers WriteHeader(200) when unwritten) -/
 def doBody (c : Cfg) (i n : Nat) (st : St) : Res :=
   if hookFires st then (spendOnce c st, some (.hook, i))
-  else ({ st with w := step st.w (.write n n), out := st.out ++ [.xs n] }, none)
+  else ({ st with w := step st.w (.write n n), out := if c.head then st.out else st.out ++ [.xs n] }, none)
 
 /-- recovery.go:136-146 — `w.WriteHeader(500); w.Write(body)`, body by environment.
     With `onceBug` the hooks run (and may panic) like for any other WriteHeader. -/
@@ -148,7 +151,7 @@ def recoverWrite (c : Cfg) (r : Nat) (st : St) : Res :=
   else
     let len := if c.dev then c.detailLen else 21
     ({ st with w := step (st.w.writeHeader 500) (.write len len),
-               out := st.out ++ [if c.dev then Tok.detail else Tok.plain] }, none)
+               out := if c.head then st.out else st.out ++ [if c.dev then Tok.detail else Tok.plain] }, none)
 
 /-! ### one handler -/
 
@@ -175,6 +178,7 @@ def execActs (c : Cfg) (runF : St → Res) (i : Nat) : List Act → St → Res
 def render (c : Cfg) (i : Nat) : Ret → St → Res
   | .none, st => (st, none)
   | .nothing, st => (st, none)
+  | .body len, st => if len = 0 then (st, none) else doBody c i len st
   | .writes code len, st =>
     match doHeader c i code st with
     | (st', some p) => (st', some p)
@@ -218,10 +222,13 @@ def run (c : Cfg) : Nat → St → Res
 
 def Cfg.fuel (c : Cfg) : Nat := c.n + 2
 
+/-- newContext: cursor 0, a fresh `NewResponseWriter(r.Method, w)`, nothing recorded -/
+def Cfg.st0 (c : Cfg) : St := { w := Writer.init c.head }
+
 /-- router.go: `contextCreator(...).run()` inside ServeHTTP, observed from outside.
     The configuration is an input only: serving returns no new configuration. -/
 def serve (c : Cfg) : St :=
-  match run c c.fuel {} with
+  match run c c.fuel c.st0 with
   | (st, none) => st
   | (st, some (v, j)) => st.ev (.escaped v j)
 
